@@ -40,6 +40,7 @@ pub mod trace {
 
 pub mod sync {
     use super::*;
+    pub use std::sync::{TryLockError, TryLockResult};
     pub mod atomic {
         pub use loom::sync::atomic::Ordering;
         pub struct AtomicBool(loom::sync::atomic::AtomicBool);
@@ -142,20 +143,23 @@ pub mod sync {
     impl<T> UnwindSafe for Arc<T> {}
     impl<T> RefUnwindSafe for Arc<T> {}
 
-    pub struct Mutex<T>(loom::sync::Mutex<T>);
+    pub struct Mutex<T>(loom::sync::Mutex<T>, loom::sync::atomic::AtomicUsize);
     impl<T> Mutex<T> {
         pub fn new(v: T) -> Self {
-            Mutex(loom::sync::Mutex::new(v))
+            Mutex(loom::sync::Mutex::new(v), loom::sync::atomic::AtomicUsize::new(0))
         }
         pub fn lock(&self) -> std::sync::LockResult<loom::sync::MutexGuard<'_, T>> {
             super::trace::enter("lock");
             let r = self.0.lock();
             super::trace::leave();
+            // loom's try_lock is an "opaque" operation: its partial-order reduction does not treat it
+            // as conflicting with lock(), so "try_lock while another thread holds the lock" would never
+            // be scheduled. The holder writes, and try_lock reads, this cell: a conflict loom does see.
+            self.1.fetch_add(1, loom::sync::atomic::Ordering::SeqCst);
             r
         }
-    }
-    impl<T> Mutex<T> {
         pub fn try_lock(&self) -> std::sync::TryLockResult<loom::sync::MutexGuard<'_, T>> {
+            self.1.load(loom::sync::atomic::Ordering::SeqCst);
             self.0.try_lock()
         }
     }
